@@ -4,7 +4,15 @@
 set -e
 cd "$(dirname "$0")"
 export CARGO_NET_OFFLINE=true
-(cd lean && lake build PestTyped model_driver)
+python3 -c "
+import sys; sys.path.insert(0, '.')
+from checks import tsrc
+print(tsrc.regenerate())"
+MODS=$(python3 -c "
+import json
+idx = json.load(open('props_index.json'))
+print(' '.join(sorted({m for v in idx.values() for m in v['modules']})))")
+(cd lean && lake build $MODS model_driver)
 python3 - <<'PY'
 import os, sys
 sys.path.insert(0, os.getcwd())
